@@ -127,7 +127,8 @@ def atlas_schema() -> Schema:
     cl["xAOD::TrackParticle"] = C(
         "xAOD::TrackParticle",
         [M("pt", "num"), M("eta", "num"), M("phi", "num"), M("d0", "num"), M("z0", "num"),
-         M("charge", "num", "float", declared=True), M("nHits", "num", "int", declared=True)],
+         M("charge", "num", "float", declared=True), M("nHits", "num", "int", declared=True),
+         M("nPix", "num", "int", declared=True, tree_type="double")],  # (a typed leaf one level down: 2-D columns of a declared tree type)
     )
     for n in ("Electron", "Muon"):
         cl[f"xAOD::{n}"] = C(
